@@ -233,6 +233,17 @@ class SimThreadPool:
         return f
 
 
+def _under_logging(frame):
+    "Inside a logging handler the thread holds that handler's (real) lock: no pre-emption."
+    f, n = frame, 0
+    while f is not None and n < 60:
+        fn = f.f_code.co_filename
+        if fn.endswith("logging/__init__.py") or fn.endswith("logging/handlers.py"):
+            return True
+        f, n = f.f_back, n + 1
+    return False
+
+
 class _SimThread:
     def __init__(self, name, fn):
         self.name = name
@@ -275,7 +286,8 @@ class MTSched:
         if event == "line" and self.line_switches < 2000 and self.w.rng.random() < self.preempt_p:
             me = self.current
             if me is not None and me.thread is threading.current_thread() and me.state == "runnable" \
-                    and sum(1 for x in self.threads if x.state == "runnable") > 1:
+                    and sum(1 for x in self.threads if x.state == "runnable") > 1 \
+                    and not _under_logging(frame):
                 self.line_switches += 1
                 self.yield_point(None)
         return self._local
